@@ -2,7 +2,7 @@
 From Coq Require Import ZArith List Bool Lia.
 From Mistletoe Require Import Proofs.SpanTiling.
 From Mistletoe Require Import Base.Sx Base.PyStr Base.PyText Gen.GenConfig Model.SpanTokenizer Model.Tree Model.CoreTokens
-     Model.Inline Model.Block Model.Build Model.Parser.
+     Model.Inline Model.Block Model.Build Model.Parser Proofs.HeadingLevel.
 Import ListNotations.
 Local Open Scope Z_scope.
 
@@ -29,7 +29,10 @@ Fixpoint wf_shape (t : tok) : bool :=
   let all := forallb wf_shape in
   match t with
   | Strong _ ch | Emphasis _ ch | Strikethrough ch | Image _ ch | Link _ ch
-  | Heading _ _ ch | SetextHeading _ _ ch | Paragraph ch | TableCell _ ch => forallb is_inline ch && all ch
+  | Paragraph ch | TableCell _ ch => forallb is_inline ch && all ch
+  (* attribute ranges: an ATX heading has level 1-6, a setext heading level 1 or 2 *)
+  | Heading l _ ch => (1 <=? l) && (l <=? 6) && forallb is_inline ch && all ch
+  | SetextHeading l _ ch => (1 <=? l) && (l <=? 2) && forallb is_inline ch && all ch
   | AutoLink _ _ ch | EscapeSequence ch => single_raw ch
   | Quote ch | ListItem _ ch | Document ch => forallb is_blockish ch && all ch
   | List _ _ ch => forallb is_item ch && all ch
@@ -112,6 +115,7 @@ Fixpoint wf_pre (p : pre) : bool :=
   | PQuote _ es => forallb (fun e => negb (is_pitem e) && wf_pre e) es
   | PList _ es => forallb (fun e => is_pitem e && wf_pre e) es
   | PItem _ es _ _ _ _ => forallb (fun e => negb (is_pitem e) && wf_pre e) es
+  | PHeading _ lv _ _ => (1 <=? lv) && (lv <=? 6)
   | _ => true
   end.
 Definition wf_entries (es : list pre) : bool := forallb (fun e => negb (is_pitem e) && wf_pre e) es.
@@ -160,6 +164,10 @@ Section Level.
              end;
       try (inversion H; subst; reflexivity);
       try (inversion H; subst; match goal with |- context [if ?b then _ else _] => destruct b end; reflexivity).
+    - (* Heading: the level is the length of the '#' group *)
+      inversion H; subst. cbn [is_pitem negb andb wf_pre].
+      match goal with E : heading_start _ = Some _ |- _ => apply heading_level in E; destruct E end.
+      apply andb_true_iff. split; apply Z.leb_le; assumption.
     - (* Quote *)
       inversion H; subst. cbn.
       match goal with E : rec ?b ?l ?s = _ |- _ => pose proof (rec_wf b l s) as Hw; rewrite E in Hw end. exact Hw.
@@ -274,7 +282,7 @@ Section BuildShape.
   Proof.
     induction p as [p Hleaf|ln es IH|ln es IH|ln es lo i pp ld IH] using pre_ind'; intros Hw.
     - destruct p; try contradiction; cbn [build is_pitem]; try (split; reflexivity).
-      + (* heading *) destruct (inline_ok span_types fn content) as [H1 H2]. cbn [wf_shape is_blockish]. rewrite H1, H2. auto.
+      + (* heading *) destruct (inline_ok span_types fn content) as [H1 H2]. cbn [wf_shape is_blockish]. cbn [wf_pre] in Hw. rewrite Hw, H1, H2. auto.
       + (* table *) split; [apply build_table_ok|]. unfold build_table.
         destruct lines as [|a [|b r]]; try reflexivity. destruct (mem 45 b); reflexivity.
       + (* footnote *) destruct keep; [|reflexivity]. split; [|reflexivity]. cbn [wf_shape].
@@ -282,7 +290,7 @@ Section BuildShape.
       + (* paragraph *) destruct (inline_ok span_types fn (strip (concat (map lstrip lines)))) as [H1 H2].
         cbn [wf_shape is_blockish]. rewrite H1, H2. auto.
       + (* setext *) destruct (inline_ok span_types fn (strip (concat (map lstrip (removelast lines))))) as [H1 H2].
-        cbn [wf_shape is_blockish]. rewrite H1, H2. auto.
+        cbn [wf_shape is_blockish]. rewrite H1, H2. destruct (endswith [61] _); auto.
     - cbn [build is_pitem wf_pre] in *. destruct (kids_blockish es IH Hw) as [H1 H2]. unfold kids in *.
       split; [|reflexivity]. cbn [wf_shape]. now rewrite H1, H2.
     - cbn [build is_pitem wf_pre] in *. destruct (kids_items es IH Hw) as [H1 H2]. unfold kids in *.
